@@ -8,7 +8,8 @@
 From Coq Require Import Strings.String.
 From LV Require Import Base.Bytes Base.Str Base.Utf8 Base.Res Base.Base64
   Model.Codec Model.Response Model.ServerInfo Model.Auth Model.Client Proofs.ClientProofs Proofs.AuthProofs Proofs.NoPanicProofs
-  Model.HeaderEnc Proofs.HeaderRtProofs.
+  Model.HeaderEnc Proofs.HeaderRtProofs Proofs.Rfc2231Proofs Model.Mailbox Model.Headers Model.Builder Spec.Envelope
+  Proofs.MailboxNamedListProofs Proofs.BuilderProofs Proofs.BuilderNamedProofs.
 
 (* reading a reply: never a panic, for any buffered octets and any peer behaviour (the fuel of the loop
    never runs out: every iteration consumes at least one octet) *)
@@ -31,8 +32,34 @@ Proof. exact send_no_panic. Qed.
 Theorem C19_header_value_never_panics : forall name value : bytes, utf8_valid value = true ->
   exists e, header_value_encode name value = Ok e.
 Proof. exact header_value_encode_total. Qed.
+
+(* Content-Disposition with a file name (rfc2231::encode: the unchecked `MAX_LINE_LEN - line_len - 3`, the section
+   counter, the percent-encoding loop) never panics and never runs out of steps for any UTF-8 file name shorter than
+   1000 octets *)
+Theorem C19_content_disposition_never_panics : forall kind fname : bytes,
+  kind = bs "attachment" \/ kind = bs "inline" -> utf8_valid fname = true -> (length fname < 1000)%nat ->
+  exists e, content_disposition_encode kind fname = Ok e.
+Proof.
+  intros kind fname Hk Hu Hl. destruct (filename_roundtrip_utf8 kind fname Hk Hu Hl) as (e & E & _). exists e. exact E.
+Qed.
+
+(* the message builder (every sequence of from / to / cc / bcc / sender / envelope / keep_bcc calls followed by
+   body()) never panics when the display names are free of CR, LF and NUL and the addresses are dot-atom ones:
+   the `to_string()` inside the builder's re-parse cannot fail there.  Outside that class it can: F1. *)
+Theorem C19_builder_never_panics :
+  forall (alnum : N -> bool) (idna : ustr -> option ustr) (ip_ok : ustr -> bool) (ops : list bop),
+  Forall (op_ok (Pnamed alnum idna ip_ok)) ops -> build_ops alnum idna ip_ok ops <> Panic.
+Proof.
+  intros alnum idna ip_ok ops Hops. rewrite (build_eq_spec_named alnum idna ip_ok ops Hops).
+  unfold spec_build. destruct (addrs_of HFrom ops); [discriminate|].
+  destruct (_ && _); [discriminate|]. destruct (last_envelope ops); [discriminate|].
+  destruct (_ ++ _); discriminate.
+Qed.
+
 Print Assumptions C19_reply_reader_never_panics.
 Print Assumptions C19_ehlo_info_never_panics.
 Print Assumptions C19_connect_never_panics.
 Print Assumptions C19_send_never_panics.
 Print Assumptions C19_header_value_never_panics.
+Print Assumptions C19_content_disposition_never_panics.
+Print Assumptions C19_builder_never_panics.
